@@ -13,7 +13,6 @@ import (
 	"testing"
 
 	"github.com/libp2p/go-libp2p/core/crypto"
-	cpb "github.com/libp2p/go-libp2p/core/crypto/pb"
 	"github.com/libp2p/go-libp2p/core/peer"
 	"github.com/libp2p/go-libp2p/x/verif/vrep"
 
@@ -161,8 +160,8 @@ func TestVerifC08Keys(t *testing.T) {
 			}
 		}
 	}
-	for _, k := range keys[:min(len(keys), 6)] {
-		a.r.Sample(map[string]any{"key": k.Name, "peer_id": k.ID.String(), "marshalled_public_len": len(k.PubBytes), "marshalled_private_len": len(k.PrivBytes)})
+	for _, k := range keys[:1] {
+		a.sample(1, "", map[string]any{"key": k.Name, "peer_id": k.ID.String(), "marshalled_public_len": len(k.PubBytes), "marshalled_private_len": len(k.PrivBytes)})
 	}
 }
 
@@ -174,7 +173,7 @@ func c08Messages() [][]byte {
 	hab := sha256.Sum256([]byte("ab"))
 	m := [][]byte{
 		{}, {0}, {0, 0}, []byte("a"), []byte("ab"), []byte("abc"), []byte("b"),
-		hab[:],         // the digest of another message (signing hashes internally: pre-hash confusion)
+		hab[:],          // the digest of another message (signing hashes internally: pre-hash confusion)
 		big, big[:4095], // long prefix pair
 	}
 	if vrep.Thorough() {
@@ -197,7 +196,6 @@ func TestVerifC08Sign(t *testing.T) {
 	for i, k := range keys {
 		recv[i] = c08Receiver(k)
 	}
-	sampled := 0
 	for i, k := range keys {
 		for mi, m := range msgs {
 			if !a.mine() {
@@ -250,9 +248,8 @@ func TestVerifC08Sign(t *testing.T) {
 						if !ok || verr != nil || !ok2 || err2 != nil {
 							a.r.Violate("own-signature-rejected", fmt.Sprintf("signature of %s over message #%d does not verify under its own public key (wire copy: %v %v, in-memory: %v %v)", k.Name, mi, ok, verr, ok2, err2), rp)
 						}
-						if sampled < 2 {
-							sampled++
-							a.r.Sample(map[string]any{"signer": k.Name, "message": c08Short(m), "signature_len": len(sig), "verified_against": fmt.Sprintf("%d keys x %d messages", len(keys), len(msgs))})
+						if len(m) > 0 {
+							a.sample(1, "", map[string]any{"signer": k.Name, "message": c08Short(m), "signature_len": len(sig), "verified_against": fmt.Sprintf("%d keys x %d messages", len(keys), len(msgs))})
 						}
 					} else if ok {
 						key := "signature-verifies-under-other-key"
@@ -403,7 +400,7 @@ func TestVerifC08IDs(t *testing.T) {
 					a.r.Outcome("extract:" + c08TypeName(k.Typ) + ":hashed-other-error")
 				}
 			}
-			a.r.Sample(map[string]any{"key": k.Name, "id_base58": b58, "id_cid": c.String(), "embeds_key": embeds})
+			a.sample(1, "", map[string]any{"key": k.Name, "id_base58": b58, "id_cid": c.String(), "embeds_key": embeds})
 		})
 	}
 	if a.nsh == 1 && (embedded == 0 || hashed == 0) {
@@ -439,5 +436,4 @@ func TestVerifC08IDs(t *testing.T) {
 			}
 		}
 	}
-	_ = cpb.KeyType_RSA
 }
